@@ -171,8 +171,25 @@ def rule_enc(rep, S, cap):
             idx_t = at[0][2][2] if at and at[0][2][0] == "index" else None
             ok_idx = idx_t is not None and {str(x) for x in ir.subterms(idx_t) if x[0] in ("ref", "call")} >= {str(("ref", pv))} and any(s[0] == "call" and s[1] == ("mem", ("this",), "size") for s in ir.subterms(idx_t)) \
                 and idx_t[0] == "bin" and idx_t[1] == "+"
-            (rep.holds if (ok_adj and ok_idx) else rep.violates)(R, lab, "adjust_size moves the terminator by val", where=d.where(fns["adjust_size"]),
-                                                                   **({} if (ok_adj and ok_idx) else {"detail": "stores `%s`" % [ir.show(a) for a in at]}))
+            if not (ok_adj and ok_idx):
+                # the same through set_size: set_size(size() + val), possibly through a local
+                from .. import fstring as fs_
+                loc_ = fs_.local_sx(fns["adjust_size"])
+                for c_ in ir.walk_expr(fns["adjust_size"]):
+                    tc = ir.sx(c_) if c_.get("kind") in ("CXXMemberCallExpr", "CallExpr") else None
+                    if tc and tc[0] == "call" and len(tc) == 3 and (tc[1] == ("mem", ("this",), "set_size") or tc[1] == ("ref", "set_size")):
+                        arg_ = fs_.subst_locals(tc[2], loc_)
+                        subs_ = [x for x in ir.subterms(arg_) if isinstance(x, tuple)]
+                        has_size = any(x[0] == "call" and len(x) == 2 and x[1] in (("mem", ("this",), "size"), ("ref", "size")) for x in subs_)
+                        has_val = any(x == ("ref", pv) for x in subs_)
+                        has_plus = any(x[0] == "bin" and x[1] == "+" for x in subs_)
+                        if has_size and has_val and has_plus and not at:
+                            ok_adj = ok_idx = True
+            if ok_adj and ok_idx:
+                rep.holds(R, lab, "adjust_size moves the terminator by val", where=d.where(fns["adjust_size"]))
+            else:
+                # not recognised is not wrong: another way of writing it is left to the reader
+                rep.inconclusive(R, lab, "adjust_size moves the terminator by val", where=d.where(fns["adjust_size"]), detail="stores `%s`" % [ir.show(a) for a in at])
         except (ceval.Unknown, ceval.UB) as e:
             rep.inconclusive(R, lab, "encoding", where=d.where(st), detail=str(e))
         return
